@@ -32,7 +32,16 @@ def literal(rng, allow_neg=True, allow_frac=True):
     """Literal text for a boundary value: the integer itself, the same digits with a decimal point moved in, with an
     exponent, with trailing digits appended, or 1 +- 10^-k."""
     r = rng.random()
-    if r < 0.12 and allow_frac:
+    if r < 0.06 and allow_frac:
+        # a word-sized numerator over the only power of ten that is word-sized itself: 19 decimals, numerator just below 2^63
+        # (or 2^64), coprime to ten so that nothing cancels
+        top = rng.choice([2 ** 63, 2 ** 63, 2 ** 64])
+        n = rng.randint(top - top // 12, top - 1) if rng.random() < 0.7 else top - rng.randint(1, 9)
+        while n % 2 == 0 or n % 5 == 0:
+            n -= 1
+        t = "0." + str(n).rjust(19, "0") if len(str(n)) <= 19 else str(n)[:-19] + "." + str(n)[-19:]
+        return ("-" + t) if allow_neg and rng.random() < 0.3 else t
+    if r < 0.16 and allow_frac:
         k = rng.randint(1, 40)
         if rng.random() < 0.5:
             t = "1." + "0" * (k - 1) + "1"
@@ -43,8 +52,8 @@ def literal(rng, allow_neg=True, allow_frac=True):
         t = str(n)
         x = rng.random()
         if x < 0.15 and allow_frac and len(t) > 1:
-            p = rng.randint(1, len(t) - 1)
-            t = t[:p] + "." + t[p:]
+            p = rng.randint(0, len(t) - 1)          # 0: all digits behind the point (0.9223372036854775807: numerator 2^63-1 over 10^19)
+            t = (t[:p] or "0") + "." + t[p:]
         elif x < 0.25 and allow_frac:
             t = t + "e" + rng.choice(["", "+", "-"]) + str(rng.randint(0, 12))
         elif x < 0.35:
@@ -75,6 +84,17 @@ def fraction_parts(rng):
         n = -n
     d = rng.choice([1, 2, 3, 5, 7, 9, 10, 11, 13, 1000, 2 ** 32, 2 ** 64 + 1])
     return n, d
+
+def word_fraction(rng):
+    """(n, d): numerator and denominator both at the top of a machine word (n just below 2^63 or 2^127, d just below 2^64 or 2^128,
+    or both a few bits lower): sums and products of two of these overflow double-width intermediates."""
+    k = rng.choice([32, 64, 64, 64, 128])
+    lo = rng.choice([0, 0, 1, 2])
+    n = 2 ** (k - 1 - lo) - rng.randint(1, 2 ** (k // 2))
+    d = 2 ** (k - lo) - rng.randint(1, 2 ** (k // 2))
+    if rng.random() < 0.3:
+        n, d = 2 ** (k - 1 - lo) - rng.randint(1, 5), 2 ** (k - lo) - rng.randint(1, 5)
+    return max(1, n), max(2, d)
 
 def big_pair(rng):
     """Two integers whose product straddles a fixed-width boundary."""
